@@ -24,7 +24,7 @@ use crate::{
 // ------------------------------------------------------------------------------------------------
 // glue traits
 // ------------------------------------------------------------------------------------------------
-pub trait Base: StarkField + ExtensibleField<2> + ExtensibleField<3> + 'static {
+pub trait Base: StarkField + ExtensibleField<2> + ExtensibleField<3> + crate::dec::BaseConv + 'static {
     const NAME: &'static str;
     /// width in bits of the integer accepted by `new`
     const NEW_BITS: usize;
